@@ -152,7 +152,7 @@ def check(run, replay=None):
         rounds = 12 if quick else 120
         layer_kernels(run, "asan", dict(mode="asan", seed=run.seed, rounds=rounds, threads=[1, 4] if quick else [1, 4, 64]), tmp)
         layer_kernels(run, "vrt", dict(mode="vrt", seed=run.seed, rounds=rounds,
-                                       threads=[[1, 0], [4, 1]] if quick else [[1, 0], [4, 1], [3, 1], [64, 1]]), tmp)
+                                       threads=[[1, 0], [4, 1], [3, 4]] if quick else [[1, 0], [4, 1], [3, 4], [64, 1], [8, 4]]), tmp)
         # one thread: OpenMP float reductions combine in completion order, so multi-threaded runs differ in the last bit
         # from run to run for reasons that have nothing to do with the buffer content (DESIGN.md Corrections)
         layer_kernels(run, "poison", dict(mode="poison", seed=run.seed, rounds=rounds, threads=[1]), tmp)
